@@ -164,6 +164,18 @@ class ModuleInfo:
     constants: dict[str, ast.expr] = field(default_factory=dict)
 
 
+def strip_copy(e):
+    """Value-preserving copies are transparent to the algebraic evaluators:
+    ``x.copy()``, ``np.copy(x)``, ``np.array(x)`` denote the same value as ``x``."""
+    while True:
+        if isinstance(e, ast.Call) and isinstance(e.func, ast.Attribute) and e.func.attr == "copy" and not e.args and not e.keywords and not (isinstance(e.func.value, ast.Name) and e.func.value.id in ("np", "copy")):
+            e = e.func.value
+            continue
+        if isinstance(e, ast.Call) and norm(e.func) in ("np.copy", "np.array", "copy.copy", "copy.deepcopy") and len(e.args) == 1 and not e.keywords:
+            e = e.args[0]
+            continue
+        return e
+
 def _decorator_name(d: ast.expr) -> str:
     if isinstance(d, ast.Call):
         d = d.func
